@@ -297,10 +297,53 @@ theorem cmpRH_isCmp : IsCmp cmpRH :=
       simp only [cmpRH, cmpRHComp_eq]
       rfl)
 
+/-! ## the Go-shaped loop: every `a[ai]` is behind its guard -/
+
+theorem rhTrimGo_eq : ∀ (f : Nat) (a : List Char), a.length < f → rhTrimGo f a = some (a.dropWhile rhTrimmed) := by
+  intro f
+  induction f with
+  | zero => intro a h; omega
+  | succ f ih =>
+    intro a h
+    cases a with
+    | nil => simp [rhTrimGo]
+    | cons c r =>
+      simp only [rhTrimGo, List.length_cons, Nat.zero_lt_succ, if_true, goIndex, List.getElem?_cons_zero, Option.bind_some,
+        List.tail_cons, List.dropWhile_cons]
+      by_cases hc : rhTrimmed c = true
+      · simp only [hc, if_true]; exact ih r (by simp at h; omega)
+      · simp [hc]
+
+theorem startsWithGo_eq (c : Char) (a : List Char) : startsWithGo c a = some (startsWith c a) := by
+  cases a <;> simp [startsWithGo, startsWith, goIndex]
+
+theorem cmpRHLoopGo_eq : ∀ (f : Nat) (a b : List Char), cmpRHLoopGo f a b = some (cmpRHLoop f a b) := by
+  intro f
+  induction f with
+  | zero => intro a b; rfl
+  | succ f ih =>
+    intro a b
+    simp only [cmpRHLoopGo, cmpRHLoop, rhTrimGo_eq _ _ (Nat.lt_succ_self _), startsWithGo_eq, Option.bind_some, ih, thenGo_some]
+    generalize a.dropWhile rhTrimmed = a'
+    generalize b.dropWhile rhTrimmed = b'
+    cases a' with
+    | nil => simp [startsWith, apply_ite some]
+    | cons c r => simp [goIndex, apply_ite some]
+
+theorem cmpRHCompGo_eq (a b : List Char) : cmpRHCompGo a b = some (cmpRHComp a b) := by
+  simp [cmpRHCompGo, cmpRHComp, cmpRHLoopGo_eq, apply_ite some]
+
+theorem cmpRHGo_eq (v w : RHV) : cmpRHGo v w = some (cmpRH v w) := by
+  simp [cmpRHGo, cmpRH, cmpRHCompGo_eq, thenGo_some]
+
+@[simp] theorem redhatFam_parse (s : List Char) : redhatFam.parse s = .ok (parseRH s) := rfl
+@[simp] theorem redhatFam_cmp (v w : RHV) : redhatFam.cmp v w = .ord (cmpRH v w) := by
+  simp [redhatFam, cmpRHGo_eq, CRes.ofGo]
+
 theorem redhat_laws : FamLaws redhatFam (fun _ => True) cmpRH where
-  parse_nopanic := fun s => by simp [redhatFam]
+  parse_nopanic := fun s => by simp
   parse_wf := fun _ _ _ => trivial
-  cmp_eq := fun _ _ _ _ => rfl
+  cmp_eq := fun v w _ _ => redhatFam_cmp v w
   refl := fun v _ => cmpRH_isCmp.refl v
   swap := fun v w _ _ => cmpRH_isCmp.swap v w
 
